@@ -670,7 +670,13 @@ func (app *App) Name() string { return app.BaseApp.Name() }
 
 // BeginBlocker application updates every begin block
 func (app *App) BeginBlocker(ctx sdk.Context, req abci.RequestBeginBlock) abci.ResponseBeginBlock {
-	return app.ModuleManager.BeginBlock(ctx, req)
+	// Begin-block work is not metered, but the SDK runs it on the deliver-state gas meter, whose
+	// reading is what a transaction that fails before the ante handler reports as GasUsed. Some
+	// begin-blockers do extra store reads in the first block after a process start (capability
+	// InitMemStore, the upgrade module's downgrade check), so that figure - which is part of the
+	// block's results hash - differed between a restarted node and one that kept running.
+	// Run the begin-blockers on a throw-away meter so reported gas never depends on restarts.
+	return app.ModuleManager.BeginBlock(ctx.WithGasMeter(sdk.NewInfiniteGasMeter()), req)
 }
 
 // EndBlocker application updates every end block
